@@ -124,7 +124,7 @@ func (w *World) lowerFunc(pkg *Pkg, key string, fd *ast.FuncDecl, fc *FuncContra
 		oldNeeded: map[string]Sort{}, anchors: map[string]int{}, usedCl: map[*Clause]bool{},
 		trusted: map[string]bool{}, specLocals: map[string]types.Object{}, panicOrd: map[string]int{},
 		constGlobals: map[string]string{}, nonNil: map[string]bool{}, sweep: sweep,
-		localTypes: map[string]types.Type{}, constVals: map[types.Object]Value{}, assignCount: countAssignments(pkg.Info, fd.Body)}
+		localTypes: map[string]types.Type{}, localDefs: collectLocalDefs(pkg.Info, fd.Body), inlineClass: map[types.Object]*Term{}, constVals: map[types.Object]Value{}, assignCount: countAssignments(pkg.Info, fd.Body)}
 	if fc != nil && fc.NoSweep {
 		e.sweep = false
 	}
@@ -296,7 +296,7 @@ func (w *World) lowerFunc(pkg *Pkg, key string, fd *ast.FuncDecl, fc *FuncContra
 		e.assert(t, "inv."+what, fmt.Sprintf("%d", cl.Ord), cl.Tags, "type invariant at exit: "+cl.Text, fmt.Sprintf("%s:%d", e.short, cl.Line))
 	})
 	// memory frame
-	if fc != nil && e.assigned["Mem"] && !fc.Assumed {
+	if fc != nil && e.assigned["Mem"] && !fc.Assumed && contractTagged(fc, "C13") {
 		e.memFrame(fc, key, sig, exitActuals)
 	}
 	// global writes
@@ -330,6 +330,9 @@ func (w *World) lowerFunc(pkg *Pkg, key string, fd *ast.FuncDecl, fc *FuncContra
 			proc.declare(v, s)
 		}
 		e.snapB.Cmds = append(e.snapB.Cmds, Cmd{Kind: CAssign, Var: "old$" + v, VS: s, T: Var(v, s)})
+	}
+	for _, cv := range e.classVars {
+		entry.Cmds = append([]Cmd{{Kind: CAssume, T: And(Le(IntLit(0), Var(cv, SInt)), Le(Var(cv, SInt), IntLit(2)))}}, entry.Cmds...)
 	}
 	// defers are unarmed at entry
 	for _, a := range e.deferInit {
@@ -458,4 +461,17 @@ func (e *Env) pseudoAnchor(name string, before bool) {
 			e.ghostClause(cl)
 		}
 	}
+}
+
+
+func contractTagged(fc *FuncContract, tag string) bool {
+	if hasTag(fc.Tags, tag) {
+		return true
+	}
+	for _, cl := range fc.Clauses {
+		if hasTag(cl.Tags, tag) {
+			return true
+		}
+	}
+	return false
 }
